@@ -85,7 +85,21 @@ fn main() {
                                         rep.push(format!("FINDING {} | {} | {}", f.property, l, f.what));
                                     }
                                 }
-                                Err(_) => rep.push(format!("M {} | built=false panic=true", l)),
+                                Err(e) => {
+                                    rep.push(format!("M {} | built=false panic=true", l));
+                                    // the pair / particle / molecule / order cases are built from valid shapes and placements only:
+                                    // a panic there is the crate's own
+                                    let tag = match spec.get_or("mode", "state") {
+                                        "pair" => Some("C12"),
+                                        "lj2" | "ljm" => Some("C13,C03"),
+                                        "order" => Some("C09,C10,C02"),
+                                        _ => None,
+                                    };
+                                    if let Some(tag) = tag {
+                                        let msg = e.downcast_ref::<String>().cloned().or_else(|| e.downcast_ref::<&str>().map(|s| s.to_string())).unwrap_or_default();
+                                        rep.push(format!("FINDING {} | {} | the crate panicked on valid shapes and placements: {}", tag, l, msg.chars().take(200).collect::<String>()));
+                                    }
+                                }
                             }
                         }
                         cf.flush().unwrap();
